@@ -81,6 +81,7 @@
 #include <fcppt/math/vector/std_hash.hpp>
 #include <fcppt/optional/comparison.hpp>
 #include <fcppt/optional/object_impl.hpp>
+#include <fcppt/hash.hpp>
 #include <fcppt/range/hash.hpp>
 #include <fcppt/record/comparison.hpp>
 #include <fcppt/record/element.hpp>
@@ -224,7 +225,7 @@ struct st_inst
     {
       std::size_t const h1 = fcppt::strong_typedef_hash<st>{}(l);
       std::size_t const h2 = std::hash<st>{}(r);
-      heq = b01(h1 == h2 && h1 == std::hash<T>{}(a));
+      heq = b01(h1 == h2 && h1 == std::hash<T>{}(a) && fcppt::hash(l) == h1);
     }
     s += " heq=" + heq;
     using iso = fcppt::type_iso::transform<st>;
@@ -442,13 +443,33 @@ enum class e3
   fcppt_maximum = v2
 };
 
+enum class e9
+{
+  v0,
+  v1,
+  v2,
+  v3,
+  v4,
+  v5,
+  v6,
+  v7,
+  v8,
+  fcppt_maximum = v8
+};
+
 FCPPT_RECORD_MAKE_LABEL(label0);
 FCPPT_RECORD_MAKE_LABEL(label1);
+
+// set when fcppt::hash(v) (hash.hpp: the function every range hash folds over) is not std::hash<T>{}(v)
+bool g_hash_mismatch = false;
 
 template <typename T>
 std::size_t std_hash(T const &v)
 {
-  return std::hash<T>{}(v);
+  std::size_t const h = std::hash<T>{}(v);
+  if (fcppt::hash(v) != h)
+    g_hash_mismatch = true;
+  return h;
 }
 
 // both hash objects must agree; otherwise a value that never equals itself comes out
@@ -938,9 +959,12 @@ struct sph_tr : base_tr
 using sph2_tr = sph_tr<2>;
 using sph3_tr = sph_tr<3>;
 
-struct bf_tr : base_tr
+// bitfield over Enum in 8-bit words; the three encoded membership bits are those of the enumerators I0, I1, I2
+// (bf3: 0,1,2 - one word, 5 padding bits; bf9: 0,7,8 - two words, the second with 7 padding bits)
+template <typename Enum, unsigned I0, unsigned I1, unsigned I2, unsigned Size>
+struct bf_tr_t : base_tr
 {
-  using type = fcppt::container::bitfield::object<e3, std::uint8_t>;
+  using type = fcppt::container::bitfield::object<Enum, std::uint8_t>;
   static constexpr bool has_hash = true;
   static std::optional<type> make(V const &l, unsigned = 0)
   {
@@ -951,13 +975,20 @@ struct bf_tr : base_tr
         return std::nullopt;
     if (l[3] < 0 || l[3] > 2)
       return std::nullopt;
+    unsigned const idx[3] = {I0, I1, I2};
     type mem{type::null()};
     type co{type::null()};
-    for (unsigned i = 0; i < 3; ++i)
-      if (l[i] == 1)
-        mem |= type{static_cast<e3>(i)};
+    for (unsigned e = 0; e < Size; ++e)
+    {
+      bool in = false;
+      for (unsigned i = 0; i < 3; ++i)
+        if (idx[i] == e && l[i] == 1)
+          in = true;
+      if (in)
+        mem |= type{static_cast<Enum>(e)};
       else
-        co |= type{static_cast<e3>(i)};
+        co |= type{static_cast<Enum>(e)};
+    }
     if (l[3] == 0)
       return mem;
     if (l[3] == 1)
@@ -971,8 +1002,8 @@ struct bf_tr : base_tr
   static unsigned mask(type const &v)
   {
     unsigned m = 0;
-    for (unsigned i = 0; i < 3; ++i)
-      if (v.get(static_cast<e3>(i)))
+    for (unsigned i = 0; i < Size; ++i)
+      if (v.get(static_cast<Enum>(i)))
         m |= 1U << i;
     return m;
   }
@@ -981,6 +1012,8 @@ struct bf_tr : base_tr
     return " m=" + std::to_string(mask(a)) + "," + std::to_string(mask(b));
   }
 };
+using bf_tr = bf_tr_t<e3, 0, 1, 2, 3>;
+using bf9_tr = bf_tr_t<e9, 0, 7, 8, 9>;
 
 template <std::size_t N>
 struct grid_tr : base_tr
@@ -1368,9 +1401,10 @@ struct engine
       if (e)
       {
         bool ok = true;
+        g_hash_mismatch = false;
         std::size_t const h1 = Tr::hash(a, ok);
         std::size_t const h2 = Tr::hash(b, ok);
-        r += " heq=" + b01(ok && h1 == h2);
+        r += " heq=" + b01(ok && !g_hash_mismatch && h1 == h2);
       }
       else
         r += " heq=-";
@@ -1817,6 +1851,7 @@ std::string handle(std::vector<std::string> const &t)
     if (ty == "sph2") return engine<sph2_tr>::handle(t);
     if (ty == "sph3") return engine<sph3_tr>::handle(t);
     if (ty == "bf3") return engine<bf_tr>::handle(t);
+    if (ty == "bf9") return engine<bf9_tr>::handle(t);
     if (ty == "earr") return engine<earr_tr>::handle(t);
     if (ty == "grid") return engine<grid2_tr>::handle(t);
     if (ty == "grid1") return engine<grid1_tr>::handle(t);
